@@ -4248,7 +4248,9 @@ void SoPlexBase<R>::_untransformUnbounded(SolRational& sol, bool unbounded)
 
    int numOrigCols = numColsRational() - 1;
    int numOrigRows = numRowsRational() - 1;
-   const Rational& tau = sol._primal[numOrigCols];
+   // if the solve of the auxiliary problem was stopped before a primal solution existed, there is no entry for tau
+   const bool hasTau = (sol._primal.dim() > numOrigCols);
+   const Rational& tau = hasTau ? sol._primal[numOrigCols] : _rationalZero;
 
    // adjust solution and basis
    if(unbounded)
@@ -4271,7 +4273,8 @@ void SoPlexBase<R>::_untransformUnbounded(SolRational& sol, bool unbounded)
       _basisStatusCols.reSize(numOrigCols);
       _basisStatusRows.reSize(numOrigRows);
    }
-   else if(boolParam(SoPlexBase<R>::TESTDUALINF) && tau < _rationalFeastol)
+   else if(boolParam(SoPlexBase<R>::TESTDUALINF) && hasTau && sol._dual.dim() > numOrigRows
+           && tau < _rationalFeastol)
    {
       const Rational& alpha = sol._dual[numOrigRows];
 
@@ -4296,7 +4299,7 @@ void SoPlexBase<R>::_untransformUnbounded(SolRational& sol, bool unbounded)
       sol.invalidate();
       _hasBasis = false;
       _basisStatusCols.reSize(numOrigCols);
-      _basisStatusCols.reSize(numOrigRows);
+      _basisStatusRows.reSize(numOrigRows);
    }
 
    // recover objective function
